@@ -191,7 +191,7 @@ def tok_of_text(text):
 def run_jws_sig(ctx):
     rng = ctx.rng
     pool = K.pool(ctx.jose)
-    pay = b"sign me \x01\x02"
+    pay = b"sign me \x01\x02\xff\x00.\xfe\n"
     ops = []
     keysets = [(["oct-32"], True), (["EC-P256"], False), (["RSA-2048"], True), (["oct-32", "EC-P384"], False), (["oct-16"], True)]
     tmpls = [None, [{"protected": {"alg": "HS256"}}], [{"header": {"kid": "k1"}}], [{"protected": {"typ": "JWT"}}, {"header": {"kid": "second"}}], [5], [{"protected": {"alg": "nope"}}]]
@@ -328,7 +328,7 @@ def run_jws_sig(ctx):
 def run_jwe(ctx):
     rng = ctx.rng
     pool = K.pool(ctx.jose)
-    pt = b"secret \x00\xfe plaintext" * 3
+    pt = b"secret \x00\xfe\xff. plaintext\n" * 3
     mk = []
     for wrap in (E.WRAPS if ctx.tier != "quick" else ["dir", "A128KW", "A256GCMKW", "ECDH-ES", "ECDH-ES+A192KW", "RSA-OAEP", "RSA1_5", "PBES2-HS256+A128KW"]):
         enc = rng.choice(E.ENCS)
